@@ -166,7 +166,7 @@ for _k in RESERVED:
 
 
 def run(ctx):
-    b = lib.standard_build(ctx, theorems=False)   # no Coq theorem for this property yet: see MANIFEST level
+    b = lib.standard_build(ctx)
     if not lib.require_builds(ctx, b):
         return
     r = ctx.rng
